@@ -444,28 +444,23 @@ func rulePresence(r *Report) {
 		}
 		okAll, n := true, 0
 		var pos ssa.Instruction
-		withClosures(fn, func(f *ssa.Function) {
-			for _, c := range callsWhere(f, func(_ ssa.Instruction, cc *ssa.CallCommon) bool {
-				n := calleeShort(cc)
-				return n == "bitmap.Sum" || n == "bitmap.Min" || n == "bitmap.Max"
-			}) {
+		deepVisitC(fn, func(c ssa.Instruction, env *venv) {
+			cc, _, _ := callCommon(c)
+			if cc == nil {
+				return
+			}
+			f := c.Parent()
+			switch nm := calleeNameE(cc, env); {
+			case nm == "bitmap.Sum" || nm == "bitmap.Min" || nm == "bitmap.Max":
 				n++
 				pos = c
-				cc, _, _ := callCommon(c)
-				sel := cc.Args[1]
-				if !selectionUnderPresence(f, c, sel) {
+				if len(cc.Args) < 2 || !selectionUnderPresence(f, c, cc.Args[1]) {
 					okAll = false
 				}
-			}
-			// Avg: the divisor counts the same set
-			if agg == "Avg" {
-				for _, c := range callsWhere(f, func(_ ssa.Instruction, cc *ssa.CallCommon) bool {
-					return methodOn(cc, "github.com/kelindar/bitmap", "Bitmap", "Count")
-				}) {
-					cc, _, _ := callCommon(c)
-					if !selectionUnderPresence(f, c, cc.Args[0]) {
-						okAll = false
-					}
+			case agg == "Avg" && methodOn(cc, "github.com/kelindar/bitmap", "Bitmap", "Count"):
+				// Avg: the divisor counts the same set
+				if !selectionUnderPresence(f, c, cc.Args[0]) {
+					okAll = false
 				}
 			}
 		})
@@ -967,21 +962,76 @@ func ruleExpire(r *Report) {
 	}
 	if fn := r.Anchor("(column.Row).SetTTL"); fn != nil {
 		ok := false
-		for _, c := range callsTo(fn, false, "(column.Row).SetInt64") {
-			cc, _, _ := callCommon(c)
-			if s, isS := constString(cc.Args[1]); isS && s == "expire" {
-				if phi, isPhi := norm(cc.Args[2]).(*ssa.Phi); isPhi {
-					zero, dead := false, false
-					for _, e := range phi.Edges {
-						if z, isC := constInt(e); isC && z == 0 {
-							zero = true
-						} else if dependsOn(e, func(v ssa.Value) bool { return v == ssa.Value(fn.Params[1]) }, 8) {
-							dead = true
-						}
-					}
-					ok = zero && dead
-				}
+		isExpireSet := func(ins ssa.Instruction) *ssa.CallCommon {
+			cc, isDefer, isGo := callCommon(ins)
+			if cc == nil || isDefer || isGo || !calleeIs(cc, "(column.Row).SetInt64") || len(cc.Args) < 3 {
+				return nil
 			}
+			if s, isS := constString(cc.Args[1]); !isS || s != "expire" {
+				return nil
+			}
+			return cc
+		}
+		dependsOnTTL := func(v ssa.Value) bool {
+			return dependsOn(v, func(x ssa.Value) bool { return x == ssa.Value(fn.Params[1]) }, 8)
+		}
+		merged := false
+		for _, c := range callsTo(fn, false, "(column.Row).SetInt64") {
+			cc := isExpireSet(c)
+			if cc == nil {
+				continue
+			}
+			// one store of a value chosen before: 0 on one edge, the deadline on the other
+			if phi, isPhi := norm(cc.Args[2]).(*ssa.Phi); isPhi {
+				merged = true
+				zero, dead := false, false
+				for _, e := range phi.Edges {
+					if z, isC := constInt(e); isC && z == 0 {
+						zero = true
+					} else if dependsOnTTL(e) {
+						dead = true
+					}
+				}
+				ok = zero && dead
+			}
+		}
+		if !merged {
+			// one store per branch: on every path exactly one, the deadline where 0 < ttl, 0 elsewhere
+			cfg := pathCfg{names: []string{"positive"}, leaf: func(c ssa.Value) (string, bool, bool) {
+				if x, y, neg, isCmp := lessThan(c); isCmp {
+					if z, isC := constInt(x); isC && z == 0 && sameExpr(y, fn.Params[1]) {
+						return "positive", neg, true // 0 < ttl
+					}
+					if z, isC := constInt(y); isC && z == 1 && sameExpr(x, fn.Params[1]) {
+						return "positive", !neg, true // ttl < 1
+					}
+				}
+				return "", false, false
+			}, classify: func(ins ssa.Instruction) string {
+				cc := isExpireSet(ins)
+				if cc == nil {
+					return ""
+				}
+				if z, isC := constInt(cc.Args[2]); isC && z == 0 {
+					return "never"
+				}
+				if dependsOnTTL(cc.Args[2]) {
+					return "deadline"
+				}
+				return "other"
+			}}
+			n := 0
+			okPaths, _ := evalPathsDeep(fn, cfg, func(as map[string]bool, ev []pathEvent, _ *ssa.Return) bool {
+				n++
+				if countEvents(ev, "other") > 0 {
+					return false
+				}
+				if as["positive"] {
+					return countEvents(ev, "deadline") == 1 && countEvents(ev, "never") == 0
+				}
+				return countEvents(ev, "never") == 1 && countEvents(ev, "deadline") == 0
+			})
+			ok = okPaths && n > 0
 		}
 		hw.Check(ok, "(column.Row).SetTTL", r.P.Pos(fn.Pos()), "stores now+ttl or 0 into the expire column", "SetTTL does not store now+ttl (or 0 for no expiry) into the expire column")
 	}
@@ -1344,22 +1394,42 @@ func ruleTTLNames(r *Report) {
 		return
 	}
 	okR, okW := false, false
-	allInstrs(fn, func(ins ssa.Instruction) {
-		cc, _, _ := callCommon(ins)
-		if cc == nil || cc.StaticCallee() == nil {
-			return
-		}
-		n := calleeShort(cc)
-		if strings.HasPrefix(n, "column.readNumberOf") {
-			if s, ok := constString(cc.Args[1]); ok && s == "expire" {
+	// the reader and the buffer may be obtained directly or through another accessor constructor
+	// of the library (txn.Int64(name)): calls are followed two levels deep with the callee's
+	// parameters bound to the arguments
+	var visit func(f *ssa.Function, env *venv, depth int)
+	visit = func(f *ssa.Function, env *venv, depth int) {
+		allInstrs(f, func(ins ssa.Instruction) {
+			cc, _, _ := callCommon(ins)
+			if cc == nil || cc.StaticCallee() == nil {
+				return
+			}
+			n := calleeShort(cc)
+			nameIs := func(v ssa.Value) bool {
+				nv, _ := normE(v, env, false)
+				s, ok := constString(nv)
+				return ok && s == "expire"
+			}
+			if strings.HasPrefix(n, "column.readNumberOf") && len(cc.Args) > 1 && nameIs(cc.Args[1]) {
 				okR = true
+				return
 			}
-		}
-		if n == "(*column.Txn).bufferFor" {
-			if s, ok := constString(cc.Args[1]); ok && s == "expire" {
+			if n == "(*column.Txn).bufferFor" && len(cc.Args) > 1 && nameIs(cc.Args[1]) {
 				okW = true
+				return
 			}
-		}
-	})
+			sc := originOf(cc.StaticCallee())
+			if depth < 2 && sc.Blocks != nil && r.P.InLib(sc) && sc.Parent() == nil {
+				ne := &venv{bind: map[*ssa.Parameter]ssa.Value{}, outer: env}
+				for j, par := range sc.Params {
+					if j < len(cc.Args) {
+						ne.bind[par] = cc.Args[j]
+					}
+				}
+				visit(sc, ne, depth+1)
+			}
+		})
+	}
+	visit(fn, nil, 0)
 	h.Check(okR && okW, "(*column.Txn).TTL", r.P.Pos(fn.Pos()), "reader and writer both on \"expire\"", "the TTL accessor does not read and write the expire column")
 }
